@@ -20,6 +20,7 @@ structure Cur where
   switches : Nat := 0
   res : RState Res.State := .ok (Res.init 1)
   job : RState JobMap.St := .ok {}
+  sig : RState SigMap.St := .ok {}
   calls : List (Nat × Call) := []
 
 def wanted (sel : List String) (id : String) : Bool := sel.isEmpty || sel.contains id
@@ -44,9 +45,14 @@ def finish (sel : List String) (c : Cur) (e : EndInfo) : IO Unit := do
     | .ok _ => ("ok", [])
     | .na _ => ("na", [])
     | .rejected ln why => ("Job", [s!"M {c.idx} Job line={ln} {why}"])
-  let model := if model1 != "ok" && model1 != "na" then model1 else if model2 != "ok" && model2 != "na" then model2 else "ok"
-  let mlines := ml1 ++ ml2
-  IO.println s!"RESULT {c.idx}{summary} model={model} obs={tr.length} lines={c.nlines} ph={c.ph} sh={c.sh} nt={nt}"
+  let (model3, ml3) : String × List String := match c.sig with
+    | .ok _ => ("ok", [])
+    | .na _ => ("na", [])
+    | .rejected ln why => ("Sig", [s!"M {c.idx} Sig line={ln} {why}"])
+  let model := if model1 != "ok" && model1 != "na" then model1 else if model2 != "ok" && model2 != "na" then model2 else if model3 != "ok" && model3 != "na" then model3 else "ok"
+  let mlines := ml1 ++ ml2 ++ ml3
+  let nas := (if model1 == "na" then 1 else 0) + (if model2 == "na" then 1 else 0) + (if model3 == "na" then 1 else 0)
+  IO.println s!"RESULT {c.idx}{summary} model={model} na={nas} obs={tr.length} lines={c.nlines} ph={c.ph} sh={c.sh} nt={nt}"
   for m in mlines do IO.println m
   for v in viols do IO.println v
 
@@ -68,7 +74,8 @@ partial def loop (h : IO.FS.Stream) (sel : List String) (c : Cur) : IO Unit := d
     loop h sel {}
   else
     let c := match parseRaw line with
-      | some rl => { c with res := ResMap.feed c.res (c.nlines + 1) rl, job := JobMap.feed c.job (c.nlines + 1) rl }
+      | some rl => { c with res := ResMap.feed c.res (c.nlines + 1) rl, job := JobMap.feed c.job (c.nlines + 1) rl,
+                               sig := SigMap.feed c.sig (c.nlines + 1) rl }
       | none => c
     match parseObs line with
     | some (.call g cid cl) => loop h sel { c with obs := c.obs.push (.call g cid cl), nlines := c.nlines + 1, calls := (cid, cl) :: c.calls }
